@@ -632,6 +632,13 @@ char* EGioGets(char*buf, int len, EGioFile_t*file)
 		case EGIO_BZLIB:
 #ifdef HAVE_LIBBZ2
 			if(buf == 0 || len <=0 ) return NULL;
+			{
+				/* once the decoder has reported an error the stream must not be read
+				 * again (libbz2 leaves its state undefined): the input ends here */
+				int bzerr = 0;
+				BZ2_bzerror(((BZFILE*)(file->file)),&bzerr);
+				if(bzerr < 0) return NULL;
+			}
 			while( --len > 0 && BZ2_bzread(((BZFILE*)(file->file)), buf, 1) == 1 && *buf++ != '\n') ;
 			*buf = '\0';
 			return b == buf && len >0 ? NULL : b ;
